@@ -73,6 +73,14 @@ def run(chk):
                     chk.count("kuchemann-forced")
                     break
         k = rng.choice([0.1, 0.37, 2.0, 3.5, 12.0])
+        if it == 4:
+            # a tail in the plane of the wing at a small angle of attack: its control points pass close to the wing's trailing vortices.  The
+            # solver option 'impingement_threshold' is documented as the threshold of a warning; it must not decide which vortices act
+            ac = gen.simple_wing_aircraft(N=4, reid=False)
+            ac["wings"]["h_stab"]["connect_to"]["dz"] = 0.0
+            st, cs, k = {"velocity": 100.0, "alpha": 1.0, "beta": 0.0}, {}, 0.3
+            sd.setdefault("solver", {})["impingement_threshold"] = 1e-3
+            chk.count("forced=coplanar-tail-impingement-threshold")
         sd2, ac2, st2 = copy.deepcopy(sd), ac, copy.deepcopy(st)
         fscale, mscale = 1.0, 1.0
         if mode == "length":
